@@ -3,6 +3,7 @@
 package mc
 
 import (
+	"bytes"
 	"encoding/hex"
 	"fmt"
 	"math/big"
@@ -332,3 +333,25 @@ func NormErr(s string) string {
 }
 
 func bigMul(a, b int64) *big.Int { return new(big.Int).Mul(big.NewInt(a), big.NewInt(b)) }
+
+var depositIDsAroundCache = map[uint64][2]uint64{}
+
+// DepositIDsAround returns two other deposit ids whose query ids sort before and after the query id of deposit id
+// (the aggregate store is ordered by query id, so these are the neighbours a range scan could run into).
+func DepositIDsAround(id uint64) (before, after uint64) {
+	if r, ok := depositIDsAroundCache[id]; ok {
+		return r[0], r[1]
+	}
+	ref := QID(BridgeQuery(true, id))
+	for x := id + 1000; before == 0 || after == 0; x++ {
+		c := bytes.Compare(QID(BridgeQuery(true, x)), ref)
+		if c < 0 && before == 0 {
+			before = x
+		}
+		if c > 0 && after == 0 {
+			after = x
+		}
+	}
+	depositIDsAroundCache[id] = [2]uint64{before, after}
+	return
+}
